@@ -78,7 +78,7 @@ func runC18(c *fw.Ctx) {
 		gen.NewPG(r, gen.ProgOpts{MaxDepth: 5, Try: true, GoErrors: true, Faults: 3}),
 		gen.NewPG(r, gen.ProgOpts{MaxDepth: 5, Macros: true, Try: true}),
 	}
-	for i := 0; i < c.PerShard(c.Pick(1600, 60000)); i++ {
+	for i := 0; i < c.PerShard(c.Pick(16000, 300000)); i++ {
 		pg := gens[i%len(gens)]
 		forms := pg.Program()
 		text := progText(forms)
